@@ -1516,3 +1516,407 @@ Proof.
   eapply pg_desc_deeper with (c := "p/c/b") (m := 0); [reflexivity|vm_compute; right; now left|].
   eapply pg_desc_child; [reflexivity|vm_compute; now left].
 Qed.
+
+(* ================================================================== deepening round =============================== *)
+Lemma pg_quiet_pure : forall orc, pg_quiet orc -> pg_pure orc.
+Proof. intros orc H k n. now rewrite H. Qed.
+
+(* ------------------------------------------------------------------ every invocation of every depth *)
+Theorem deep_invoked_only_unfinished : forall body reason lc now fam leaf,
+  pg_quiet leaf -> pg_fam_wf fam ->
+  forall fuel k n s m,
+    In (s, m) (e_invoked (snd (pg_deep_oracle fuel body reason lc now fam leaf k n))) ->
+    pg_rec_finished (pg_find s body) = false /\
+    pg_rec_sleeping now (pg_find s body) = false /\
+    m = pg_rec_retries (pg_find s body).
+Proof.
+  intros * Hq Hwf fuel. induction fuel as [|f IH]; intros k n s m H.
+  - simpl in H. rewrite Hq in H. destruct H.
+  - destruct (fam k) as [[[res so] ss]|] eqn:Hfam.
+    + rewrite (pg_deep_unfold _ _ _ _ _ _ _ _ _ _ _ _ Hfam) in H.
+      set (sub := pg_deep_oracle f body reason lc now fam leaf) in *.
+      assert (Ht : In (s, m) (sr_trace (pg_sub_execute body reason so ss lc now sub))) by (unfold pg_parent_outcome in H; exact H).
+      clear H. unfold pg_sub_execute in Ht. cbn [sr_trace] in Ht.
+      set (st := pg_with_handlers _ ss now) in *.
+      apply in_flat_map in Ht. destruct Ht as (ke & Hke & Hin).
+      unfold pg_run in Hke. apply in_map_iff in Hke. destruct Hke as (c & Ec & Hc). subst ke. cbn [fst snd] in Hin.
+      destruct Hin as [E|Hin].
+      * inversion E. subst s m.
+        assert (Hinv : In (c, pg_retries_of st c) (sr_invoked (pg_sub_execute body reason so ss lc now sub))).
+        { unfold pg_sub_execute. cbn [sr_invoked]. fold st. unfold pg_invocations. apply in_map_iff. now exists c. }
+        destruct (sub_invoked_only_unfinished _ _ _ _ _ _ _ _ _ (Hwf _ _ _ _ Hfam) Hinv) as (_ & A & B & C). auto.
+      * eapply IH. exact Hin.
+    + rewrite (pg_deep_leaf (S f) _ _ _ _ _ _ _ _ Hfam) in H. rewrite Hq in H. destruct H.
+Qed.
+
+Lemma pg_pipeline_sub : forall body owned reason selected lc now nd orc s m,
+  In (s, m) (r_sub (pg_pipeline body owned reason selected lc now nd orc)) ->
+  exists k n, In (s, m) (e_invoked (snd (orc k n))).
+Proof.
+  intros * H. unfold pg_pipeline in H. destruct (negb (pg_handler_reason reason)); [destruct H|].
+  destruct selected as [|s0 sel]; [destruct H|]. cbn [r_sub] in H.
+  apply in_flat_map in H. destruct H as (ke & Hke & Hin).
+  unfold pg_run in Hke. apply in_map_iff in Hke. destruct Hke as (c & Ec & _). subst ke. simpl in Hin. eauto.
+Qed.
+
+(* C02 for the whole trace of a call: handlers and sub-handlers of every depth *)
+Theorem trace_only_unfinished : forall body owned reason selected lc now nd fuel fam leaf s m,
+  incl selected owned -> pg_quiet leaf -> pg_fam_wf fam ->
+  In (s, m) (pg_trace (pg_pipeline body owned reason selected lc now nd (pg_deep_oracle fuel body reason lc now fam leaf))) ->
+  pg_rec_finished (pg_find s body) = false /\
+  pg_rec_sleeping now (pg_find s body) = false /\
+  m = pg_rec_retries (pg_find s body).
+Proof.
+  intros * Hincl Hq Hwf H. unfold pg_trace in H. apply in_app_or in H. destruct H as [H|H].
+  - destruct (invoked_only_unfinished _ _ _ _ _ _ _ _ _ _ Hincl H) as (_ & A & B & C). auto.
+  - apply pg_pipeline_sub in H. destruct H as (k & n & H). eapply deep_invoked_only_unfinished; eauto.
+Qed.
+
+(* ------------------------------------------------------------------ a handler that is due IS invoked *)
+Lemma pg_todo_is_due : forall body owned reason selected now,
+  incl selected owned ->
+  pg_todo (pg_prepare body owned reason selected now) selected now = pg_due body selected now.
+Proof.
+  intros * Hincl. unfold pg_todo, pg_due. apply filter_ext_in. intros k Hk.
+  destruct (pg_prepare_selected_owned body owned reason selected now k Hk (Hincl _ Hk)) as (h & Hf & _ & F & S & _).
+  rewrite Hf. unfold pg_awakened. now rewrite F, S.
+Qed.
+
+Lemma pg_retries_prepared : forall body owned reason selected now k,
+  incl selected owned -> In k selected ->
+  pg_retries_of (pg_prepare body owned reason selected now) k = pg_rec_retries (pg_find k body).
+Proof.
+  intros * Hincl Hk.
+  destruct (pg_prepare_selected_owned body owned reason selected now k Hk (Hincl _ Hk)) as (h & Hf & _ & _ & _ & R).
+  unfold pg_retries_of. now rewrite Hf.
+Qed.
+
+Lemma pg_argmin_min : forall st l b x, In x (b :: l) -> pg_retries_of st (pg_argmin st b l) <= pg_retries_of st x.
+Proof.
+  induction l as [|y l IH]; intros b x Hx; simpl.
+  - destruct Hx as [<-|[]]. lia.
+  - destruct (pg_retries_of st y <? pg_retries_of st b) eqn:E.
+    + apply Z.ltb_lt in E. destruct Hx as [<-|[<-|Hx]].
+      * specialize (IH y y (or_introl eq_refl)). lia.
+      * apply IH. now left.
+      * apply IH. now right.
+    + apply Z.ltb_ge in E. destruct Hx as [<-|[<-|Hx]].
+      * apply IH. now left.
+      * specialize (IH b b (or_introl eq_refl)). lia.
+      * apply IH. now right.
+Qed.
+
+Lemma pg_pipeline_invoked_ids : forall body owned reason selected lc now nd orc,
+  pg_handler_reason reason = true ->
+  map fst (r_invoked (pg_pipeline body owned reason selected lc now nd orc)) =
+  pg_plan lc (pg_prepare body owned reason selected now) selected now.
+Proof.
+  intros * Hr. unfold pg_pipeline. rewrite Hr. simpl negb. cbv iota.
+  destruct selected as [|s0 sel] eqn:Es.
+  - simpl. unfold pg_plan, pg_todo. simpl. now destruct lc; simpl; try reflexivity; induction idx as [|i idx IH]; simpl; [|destruct i]; auto.
+  - cbn [r_invoked]. unfold pg_invocations. rewrite map_map. simpl. apply map_id.
+Qed.
+
+Theorem due_is_invoked : forall body owned reason selected lc now nd orc,
+  pg_handler_reason reason = true -> incl selected owned ->
+  let ids := map fst (r_invoked (pg_pipeline body owned reason selected lc now nd orc)) in
+  let due := pg_due body selected now in
+  (lc = LAll -> ids = due) /\
+  (lc = LOne -> ids = firstn 1 due) /\
+  (lc = LAsap -> (due = [] /\ ids = []) \/
+                 exists k, ids = [k] /\ In k due /\
+                           forall k', In k' due -> pg_rec_retries (pg_find k body) <= pg_rec_retries (pg_find k' body)).
+Proof.
+  intros * Hr Hincl ids due. subst ids due. rewrite (pg_pipeline_invoked_ids _ _ _ _ _ _ _ _ Hr).
+  unfold pg_plan. rewrite (pg_todo_is_due _ _ _ _ _ Hincl).
+  split; [intros ->; reflexivity|]. split; [intros ->; reflexivity|]. intros ->. simpl.
+  destruct (pg_due body selected now) as [|b l] eqn:Ed; [now left|]. right.
+  set (st := pg_prepare body owned reason selected now).
+  assert (Hsub : forall x, In x (b :: l) -> In x selected).
+  { intros x Hx. rewrite <- Ed in Hx. unfold pg_due in Hx. now apply filter_In in Hx. }
+  exists (pg_argmin st b l). split; [reflexivity|]. split; [apply pg_argmin_In|]. intros k' Hk'.
+  pose proof (pg_argmin_min st l b k' Hk') as Hm. unfold st in Hm.
+  rewrite !pg_retries_prepared in Hm; auto. apply Hsub, pg_argmin_In.
+Qed.
+
+(* ------------------------------------------------------------------ what an invocation did IS recorded on the object *)
+Theorem attempt_is_recorded : forall body owned reason selected lc now nd orc k n,
+  pg_handler_reason reason = true -> selected <> [] ->
+  let r := pg_pipeline body owned reason selected lc now nd orc in
+  r_done r = Some false ->
+  In (k, n) (r_invoked r) ->
+  let o := fst (orc k n) in
+  exists d, pg_after body (r_patch r) k = Some d /\
+            s_retries d = Some (n + 1) /\
+            s_success d = Some (o_final o && match o_exc o with None => true | Some _ => false end) /\
+            s_failure d = Some (o_final o && match o_exc o with None => false | Some _ => true end) /\
+            s_delayed d = match o_delay o with Some x => Some (now + x) | None => None end /\
+            s_message d = o_exc o /\
+            pg_rec_finished (Some d) = o_final o /\
+            (forall s, In s (o_subrefs o) -> In s (pg_or (s_subrefs d) [])).
+Proof.
+  intros * Hr Hs r Hd Hinv o. subst r o.
+  destruct (pg_pipeline_final body owned reason selected lc now nd orc Hr Hs) as (Ff & Fd & _). cbv zeta in Ff, Fd.
+  rewrite Fd in Hd. injection Hd as Hd'. rewrite Ff in Hd'.
+  rewrite pg_pipeline_patch by assumption. unfold pg_patch_of. rewrite Hd'.
+  apply pg_pipeline_invoked in Hinv. destruct Hinv as [Hp Hn].
+  set (st2 := pg_prepare body owned reason selected now) in *.
+  destruct (pg_plan_spec _ _ _ _ _ Hp) as (_ & h2 & Hf2 & _).
+  destruct (pg_prepare_item body owned reason selected now k h2 Hf2) as (_ & W & _).
+  assert (Hr2 : pg_retries_of st2 k = h_retries h2) by (unfold pg_retries_of; now rewrite Hf2).
+  set (st3 := pg_final_of body owned reason selected lc now orc).
+  assert (ND : NoDup (map fst (st_items st3))).
+  { unfold st3, pg_final_of. rewrite pg_keys_with_outcomes. apply pg_keys_prepare. }
+  assert (Hf3 : pg_find k (st_items st3) = Some (pg_hs_with_outcome now h2 (fst (orc k n)))).
+  { unfold st3, pg_final_of. fold st2. rewrite pg_find_with_outcomes, Hf2. cbn [option_map].
+    rewrite pg_out_of_run. pose proof Hp as Hp'. apply pg_mem_In in Hp'. rewrite Hp'. now subst n. }
+  unfold pg_after. rewrite (pg_find_store _ _ _ ND), Hf3, (pg_changed_with_outcome _ _ _ W).
+  eexists. split; [reflexivity|]. cbn [pg_for_storage s_retries s_success s_failure s_delayed s_message pg_hs_with_outcome
+                                        h_retries h_success h_failure h_delayed h_message].
+  rewrite Hn, Hr2. repeat split.
+  - unfold pg_rec_finished. cbn [s_success s_failure pg_for_storage pg_or h_success h_failure pg_hs_with_outcome].
+    destruct (o_final _), (o_exc _); reflexivity.
+  - intros s Hin. apply pg_for_storage_subrefs. apply pg_subrefs_with_outcome. now right.
+Qed.
+
+(* ... and for sub-handlers: subhandling.execute stores exactly that *)
+Theorem sub_attempt_is_recorded : forall body reason so ss lc now orc c m,
+  let sr := pg_sub_execute body reason so ss lc now orc in
+  In (c, m) (sr_invoked sr) ->
+  exists d, In (c, d) (sr_stores sr) /\ s_retries d = Some (m + 1) /\
+            pg_rec_finished (Some d) = o_final (fst (orc c m)) /\
+            s_success d = Some (o_final (fst (orc c m)) && match o_exc (fst (orc c m)) with None => true | Some _ => false end).
+Proof.
+  intros body reason so ss lc now orc c m sr H. subst sr. unfold pg_sub_execute in *. cbn [sr_invoked sr_stores] in *.
+  set (st := pg_with_handlers _ ss now) in *. set (plan := pg_plan lc st ss now) in *.
+  unfold pg_invocations in H. apply in_map_iff in H. destruct H as (c' & E & Hc). inversion E. subst c' m. clear E.
+  destruct (pg_plan_spec _ _ _ _ _ Hc) as (_ & h & Hf & _).
+  assert (W : pg_wf_h h).
+  { unfold st in Hf. rewrite pg_find_with_handlers in Hf. unfold pg_wh_spec in Hf.
+    rewrite pg_find_with_purpose, pg_find_from_storage in Hf.
+    destruct (pg_mem c ss), (pg_mem c so), (pg_find c body); cbn [option_map pg_mem] in Hf; inversion Hf; unfold pg_wf_h; simpl; auto. }
+  set (outs := pg_outs_of_run (pg_run orc st plan)).
+  assert (Hf3 : pg_find c (st_items (pg_with_outcomes st outs now)) = Some (pg_hs_with_outcome now h (fst (orc c (pg_retries_of st c))))).
+  { rewrite pg_find_with_outcomes, Hf. cbn [option_map]. unfold outs. rewrite pg_out_of_run.
+    pose proof Hc as Hc'. apply pg_mem_In in Hc'. fold plan in Hc'. now rewrite Hc'. }
+  exists (pg_for_storage (pg_hs_with_outcome now h (fst (orc c (pg_retries_of st c))))). split.
+  - apply in_or_app. right. unfold pg_store_list. apply in_flat_map.
+    exists (c, pg_hs_with_outcome now h (fst (orc c (pg_retries_of st c)))). split; [now apply pg_find_In|].
+    cbn [fst snd]. rewrite (pg_changed_with_outcome _ _ _ W). now left.
+  - assert (Hr : pg_retries_of st c = h_retries h) by (unfold pg_retries_of; now rewrite Hf). rewrite Hr.
+    cbn [pg_for_storage s_retries s_success pg_hs_with_outcome h_retries h_success]. repeat split.
+    unfold pg_rec_finished. cbn [s_success s_failure pg_for_storage pg_or h_success h_failure pg_hs_with_outcome].
+    destruct (o_final _), (o_exc _); reflexivity.
+Qed.
+
+(* ------------------------------------------------------------------ "finished" stays recorded while the cycle is open *)
+Lemma pg_find_effects_fold_src : forall (l : list (pg_hid * pg_srec)) p s a,
+  pg_find s (fold_left (fun p kr => pg_p_set (fst kr) (PStore (snd kr)) p) l p) = Some a ->
+  pg_find s p = Some a \/ exists r, In (s, r) l /\ a = PStore r.
+Proof.
+  induction l as [|kr l IH]; simpl; intros p s a H; [now left|].
+  apply IH in H. destruct H as [H|(r & Hin & E)]; [|right; exists r; auto].
+  rewrite pg_find_p_set in H. destruct (String.eqb (fst kr) s) eqn:E; [|now left].
+  apply String.eqb_eq in E. inversion H. right. exists (snd kr). split; [left; destruct kr; simpl in *; congruence|reflexivity].
+Qed.
+
+Lemma pg_find_apply_effects_src : forall ran p s a,
+  pg_find s (pg_apply_effects ran p) = Some a ->
+  pg_find s p = Some a \/ exists ke r, In ke ran /\ In (s, r) (e_stores (snd (snd ke))) /\ a = PStore r.
+Proof.
+  unfold pg_apply_effects. induction ran as [|ke ran IH]; simpl; intros p s a H; [now left|].
+  apply IH in H. destruct H as [H|(ke' & r & H1 & H2 & H3)]; [|right; exists ke', r; auto].
+  apply pg_find_effects_fold_src in H. destruct H as [H|(r & Hin & E)]; [now left|]. right. exists ke, r. auto.
+Qed.
+
+Lemma pg_rec_finished_for_storage : forall h, pg_rec_finished (Some (pg_for_storage h)) = pg_finished h.
+Proof. reflexivity. Qed.
+
+Theorem finished_stays_finished : forall body owned reason selected lc now nd orc,
+  incl selected owned -> pg_keeps_finished body orc ->
+  let r := pg_pipeline body owned reason selected lc now nd orc in
+  r_done r <> Some true ->
+  (pg_handler_reason reason = true -> pg_has_extras (pg_prepare body owned reason selected now) = false) ->
+  forall s, pg_rec_finished (pg_find s body) = true -> pg_rec_finished (pg_after body (r_patch r) s) = true.
+Proof.
+  intros * Hincl Hkf r Hnd Hex s Hfin. subst r.
+  destruct (pg_handler_reason reason) eqn:Hr.
+  2:{ destruct (pg_pipeline_idle body owned reason selected lc now nd orc Hr) as (_ & Hp & _). cbv zeta in Hp. rewrite Hp.
+      unfold pg_after. simpl. exact Hfin. }
+  specialize (Hex eq_refl).
+  destruct selected as [|s0 sel] eqn:Es.
+  - unfold pg_pipeline. rewrite Hr. simpl negb. cbv iota. cbn [r_patch]. rewrite Hex. unfold pg_after. simpl. exact Hfin.
+  - rewrite <- Es in *. assert (Hne : selected <> []) by (rewrite Es; discriminate).
+    destruct (pg_pipeline_final body owned reason selected lc now nd orc Hr Hne) as (Ff & Fd & _). cbv zeta in Ff, Fd.
+    rewrite Fd, Ff in Hnd.
+    destruct (pg_done (pg_final_of body owned reason selected lc now orc)) eqn:Hd; [congruence|].
+    rewrite pg_pipeline_patch by assumption. unfold pg_patch_of. rewrite Hd, Hex.
+    set (st2 := pg_prepare body owned reason selected now).
+    set (st3 := pg_final_of body owned reason selected lc now orc).
+    set (ran := pg_run orc st2 (pg_plan lc st2 selected now)).
+    assert (ND : NoDup (map fst (st_items st3))).
+    { unfold st3, pg_final_of. rewrite pg_keys_with_outcomes. apply pg_keys_prepare. }
+    unfold pg_after. rewrite (pg_find_store _ _ _ ND).
+    destruct (pg_find s (st_items st3)) as [h3|] eqn:E3.
+    + (* a state of this call: s is owned, its state says finished, it was not run *)
+      unfold st3, pg_final_of in E3. fold st2 in E3. rewrite pg_find_with_outcomes in E3.
+      destruct (pg_find s (st_items st2)) as [h2|] eqn:E2; [|discriminate]. cbn [option_map] in E3.
+      assert (Hown : In s owned).
+      { destruct (pg_prepare_item body owned reason selected now s h2 E2) as ([H|H] & _); auto. }
+      assert (F2 : pg_finished h2 = true).
+      { destruct (pg_find s body) as [d|] eqn:Eb; [|discriminate].
+        unfold st2 in E2. rewrite pg_prepare_find in E2. unfold pg_wh_spec, pg_base in E2.
+        pose proof Hown as Ho. apply pg_mem_In in Ho. rewrite Ho, Eb in E2. cbn [option_map] in E2.
+        destruct (pg_mem s selected); cbn [option_map] in E2; inversion E2; destruct (_ && _); exact Hfin. }
+      assert (Hnp : pg_out_of s (pg_outs_of_run (pg_run orc st2 (pg_plan lc st2 selected now))) = None).
+      { rewrite pg_out_of_run. destruct (pg_mem s (pg_plan lc st2 selected now)) eqn:Em; [|reflexivity].
+        apply pg_mem_In in Em. apply pg_plan_spec in Em. destruct Em as (_ & h & Hf & Haw). fold st2 in Hf.
+        rewrite E2 in Hf. inversion Hf. subst h. unfold pg_awakened in Haw. rewrite F2 in Haw. discriminate. }
+      rewrite Hnp in E3. inversion E3. subst h3.
+      destruct (pg_changed h2); [exact F2|].
+      destruct (pg_find s (pg_apply_effects ran [])) as [a|] eqn:Ea; [|exact Hfin].
+      apply pg_find_apply_effects_src in Ea. destruct Ea as [Ea|(ke & x & Hke & Hst & ->)]; [discriminate|].
+      unfold ran, pg_run in Hke. apply in_map_iff in Hke. destruct Hke as (c & Ec & _). subst ke. simpl in Hst.
+      eapply Hkf; eauto.
+    + destruct (pg_find s (pg_apply_effects ran [])) as [a|] eqn:Ea; [|exact Hfin].
+      apply pg_find_apply_effects_src in Ea. destruct Ea as [Ea|(ke & x & Hke & Hst & ->)]; [discriminate|].
+      unfold ran, pg_run in Hke. apply in_map_iff in Hke. destruct Hke as (c & Ec & _). subst ke. simpl in Hst.
+      eapply Hkf; eauto.
+Qed.
+
+(* the nested-handler oracle never writes "unfinished" over a record that says "finished" *)
+Theorem deep_keeps_finished : forall body reason lc now fam leaf,
+  pg_quiet leaf -> pg_fam_wf fam -> forall fuel, pg_keeps_finished body (pg_deep_oracle fuel body reason lc now fam leaf).
+Proof.
+  intros * Hq Hwf fuel. induction fuel as [|f IH]; intros k n s r Hs Hfin.
+  - simpl in Hs. rewrite Hq in Hs. destruct Hs.
+  - destruct (fam k) as [[[res so] ss]|] eqn:Hfam.
+    + rewrite (pg_deep_unfold _ _ _ _ _ _ _ _ _ _ _ _ Hfam) in Hs.
+      set (sub := pg_deep_oracle f body reason lc now fam leaf) in *.
+      assert (Hst : In (s, r) (sr_stores (pg_sub_execute body reason so ss lc now sub))) by (unfold pg_parent_outcome in Hs; exact Hs).
+      clear Hs. unfold pg_sub_execute in Hst. cbn [sr_stores] in Hst. apply in_app_or in Hst. destruct Hst as [Hst|Hst].
+      * apply in_flat_map in Hst. destruct Hst as (ke & Hke & Hkr).
+        unfold pg_run in Hke. apply in_map_iff in Hke. destruct Hke as (c & Ec & _). subst ke. simpl in Hkr. eapply IH; eauto.
+      * set (st := pg_with_handlers _ ss now) in *.
+        unfold pg_store_list in Hst. apply in_flat_map in Hst. destruct Hst as ([a h3] & Hin & Hst). cbn [fst snd] in Hst.
+        destruct (pg_changed h3); [|destruct Hst]. destruct Hst as [E|[]]. inversion E. subst a r. clear E.
+        rewrite pg_rec_finished_for_storage.
+        assert (ND : NoDup (map fst (st_items (pg_with_outcomes st (pg_outs_of_run (pg_run sub st (pg_plan lc st ss now))) now)))).
+        { rewrite pg_keys_with_outcomes. unfold st. rewrite pg_with_handlers_fold. apply pg_keys_wh_fold.
+          rewrite pg_keys_with_purpose. apply pg_keys_from_storage. }
+        apply (pg_nodup_find _ _ _ _ ND) in Hin. rewrite pg_find_with_outcomes in Hin.
+        destruct (pg_find s (st_items st)) as [h2|] eqn:E2; [|discriminate]. cbn [option_map] in Hin.
+        destruct (pg_find s body) as [d|] eqn:Eb; [|discriminate].
+        assert (F2 : pg_finished h2 = true).
+        { unfold st in E2. rewrite pg_find_with_handlers in E2. unfold pg_wh_spec in E2.
+          rewrite pg_find_with_purpose, pg_find_from_storage in E2. rewrite Eb in E2.
+          destruct (pg_mem s ss) eqn:Ess, (pg_mem s so) eqn:Eso; cbn [option_map pg_mem] in E2; inversion E2; try exact Hfin.
+          - exfalso. apply pg_mem_In in Ess. apply (Hwf _ _ _ _ Hfam) in Ess. apply pg_mem_In in Ess. congruence. }
+        assert (Hnp : pg_out_of s (pg_outs_of_run (pg_run sub st (pg_plan lc st ss now))) = None).
+        { rewrite pg_out_of_run. destruct (pg_mem s (pg_plan lc st ss now)) eqn:Em; [|reflexivity].
+          apply pg_mem_In in Em. apply pg_plan_spec in Em. destruct Em as (_ & h & Hf & Haw).
+          rewrite E2 in Hf. inversion Hf. subst h. unfold pg_awakened in Haw. rewrite F2 in Haw. discriminate. }
+        rewrite Hnp in Hin. inversion Hin. subst h3. exact F2.
+    + rewrite (pg_deep_leaf (S f) _ _ _ _ _ _ _ _ Hfam) in Hs. rewrite Hq in Hs. destruct Hs.
+Qed.
+
+(* ------------------------------------------------------------------ the object after the patch, as the next call's view *)
+Lemma pg_find_flat_map_gen : forall A (f : pg_hid -> option A) l k,
+  NoDup l ->
+  pg_find k (flat_map (fun k => match f k with Some d => [(k, d)] | None => [] end) l) =
+  if pg_mem k l then f k else None.
+Proof.
+  induction l as [|x l IH]; intros k ND; simpl; [reflexivity|].
+  inversion ND as [|? ? Hx ND']. subst. rewrite pg_find_app, IH by assumption.
+  destruct (String.eqb x k) eqn:E; simpl.
+  - apply String.eqb_eq in E. subst x. destruct (f k); simpl.
+    + now rewrite String.eqb_refl.
+    + apply pg_mem_false in Hx. now rewrite Hx.
+  - destruct (f x); simpl; [now rewrite E|reflexivity].
+Qed.
+
+Theorem pg_find_apply : forall body p s, pg_find s (pg_apply body p) = pg_after body p s.
+Proof.
+  intros. unfold pg_apply. rewrite pg_find_flat_map_gen by apply pg_dedup_NoDup.
+  destruct (pg_mem s (pg_dedup (map fst p ++ map fst body))) eqn:E; [reflexivity|].
+  apply pg_mem_false in E. rewrite pg_dedup_In, in_app_iff in E.
+  unfold pg_after. assert (H1 : pg_find s p = None) by (apply pg_find_none; tauto).
+  assert (H2 : pg_find s body = None) by (apply pg_find_none; tauto). now rewrite H1, H2.
+Qed.
+
+(* ------------------------------------------------------------------ across calls: intervening events, sibling retries, restarts *)
+(* what each call's handlers may do: never run what the object says is finished, never un-finish a record *)
+Definition pg_orc_ok (c : pg_call) : Prop :=
+  forall b, pg_keeps_finished b (c_orc c b) /\
+            forall k n s m, In (s, m) (e_invoked (snd (c_orc c b k n))) -> pg_rec_finished (pg_find s b) = false.
+
+Theorem no_rerun_across_calls : forall owned calls body s,
+  (forall c, In c calls -> incl (c_selected c) owned /\ pg_orc_ok c) ->
+  pg_all_calm owned body calls ->
+  pg_rec_finished (pg_find s body) = true ->
+  (forall r, In r (fst (pg_run_calls owned body calls)) -> ~ In s (map fst (pg_trace r))) /\
+  pg_rec_finished (pg_find s (snd (pg_run_calls owned body calls))) = true.
+Proof.
+  intros owned calls. induction calls as [|c cs IH]; intros body s Hc Hcalm Hfin.
+  - simpl. split; [intros r []|exact Hfin].
+  - destruct (Hc c (or_introl eq_refl)) as [Hincl Hok]. destruct Hcalm as [[Hnd Hex] Hrest].
+    set (r := pg_call_result owned body c) in *.
+    assert (Hnot : ~ In s (map fst (pg_trace r))).
+    { intros Hin. apply in_map_iff in Hin. destruct Hin as ([s' m] & E & Hin). simpl in E. subst s'.
+      unfold pg_trace in Hin. apply in_app_or in Hin. destruct Hin as [Hin|Hin].
+      - unfold r, pg_call_result in Hin.
+        destruct (invoked_only_unfinished _ _ _ _ _ _ _ _ _ _ Hincl Hin) as (_ & F & _). congruence.
+      - unfold r, pg_call_result in Hin. apply pg_pipeline_sub in Hin. destruct Hin as (k & n & Hin).
+        destruct (Hok body) as [_ Ht]. apply Ht in Hin. congruence. }
+    assert (Hfin' : pg_rec_finished (pg_find s (pg_apply body (r_patch r))) = true).
+    { rewrite pg_find_apply. unfold r, pg_call_result.
+      apply finished_stays_finished; auto. destruct (Hok body) as [Hk _]. exact Hk. }
+    destruct (IH (pg_apply body (r_patch r)) s) as [IH1 IH2]; auto.
+    { intros c' Hc'. apply Hc. now right. }
+    simpl. fold r. split; [|exact IH2]. intros r' [<-|Hr']; [exact Hnot|now apply IH1].
+Qed.
+
+(* the nested-handler behaviour is such a behaviour *)
+Theorem deep_orc_ok : forall reason selected lc now nd fuel fam leaf,
+  pg_quiet leaf -> pg_fam_wf fam ->
+  pg_orc_ok (mkPgCall reason selected lc now nd (fun b => pg_deep_oracle fuel b reason lc now fam leaf)).
+Proof.
+  intros * Hq Hwf b. cbn [c_orc]. split; [now apply deep_keeps_finished|].
+  intros k n s m H. eapply deep_invoked_only_unfinished in H; eauto. tauto.
+Qed.
+
+(* ------------------------------------------------------------------ non-vacuity for the deepening round *)
+Definition w_call (now : Z) (tmp : list pg_hid) : pg_call :=
+  mkPgCall PRUpdate ["a"; "p"] LAll now true (fun b => pg_deep_oracle 5 b PRUpdate LAll now w_fam3 (w_orc tmp)).
+
+(* two calls on the evolving object: in the first everything but the twig succeeds, the second runs p, p/c, p/c/b and
+   the twig again (retry 1) and nothing that is recorded as finished; both calls are calm *)
+Example ex_two_calls :
+  let calls := [w_call w_now ["p/c/b/t"]; w_call (w_now + 2000000) ["p/c/b/t"]] in
+  let run := pg_run_calls ["a"; "p"] [] calls in
+  map pg_trace (fst run) =
+    [[("a", 0); ("p", 0); ("p/c", 0); ("p/c/a", 0); ("p/c/b", 0); ("p/c/b/t", 0); ("p/o", 0)];
+     [("p", 1); ("p/c", 1); ("p/c/b", 1); ("p/c/b/t", 1)]] /\
+  pg_rec_finished (pg_find "a" (snd run)) = true /\ pg_rec_finished (pg_find "p/c/a" (snd run)) = true /\
+  pg_rec_finished (pg_find "p/c/b" (snd run)) = false /\
+  pg_rec_retries (pg_find "p/c/b/t" (snd run)) = 2.
+Proof. vm_compute. repeat split. Qed.
+
+Example ex_two_calls_calm :
+  pg_all_calm ["a"; "p"] [] [w_call w_now ["p/c/b/t"]; w_call (w_now + 2000000) ["p/c/b/t"]].
+Proof. simpl. repeat split; try (vm_compute; discriminate); intros _; vm_compute; reflexivity. Qed.
+
+Lemma w_fam3_wf : pg_fam_wf w_fam3.
+Proof.
+  intros k res so ss H. unfold w_fam3 in H.
+  destruct (String.eqb k "p"); [inversion H; apply incl_refl|].
+  destruct (String.eqb k "p/c"); [inversion H; apply incl_refl|].
+  destruct (String.eqb k "p/c/b"); [inversion H; apply incl_refl|discriminate].
+Qed.
+
+Example ex_due_asap :
+  let body := [("a", w_retry "update"); ("b", mkPgRec (Some 990000000) None None (Some "update") (Some 0) (Some false) (Some false) None None);
+               ("c", w_done "update")] in
+  pg_due body ["a"; "b"; "c"] w_now = ["a"; "b"] /\
+  map fst (r_invoked (pg_pipeline body ["a"; "b"; "c"] PRUpdate ["a"; "b"; "c"] LAsap w_now true (w_orc []))) = ["b"].
+Proof. vm_compute. split; reflexivity. Qed.
